@@ -274,6 +274,77 @@ def build_trace(res):
     return tr
 
 
+# ---- the ledger properties at the level of the entry points ------------------------------------------------------------------
+def cli_ledger_jobs(prop, tier, rnd):
+    """end-to-end runs for the ledger checks C01..C10: the method comes from -m or from the [accounting_methods] section of the config
+    file, the window from -f / -t, -n from the command line, the transactions from a spreadsheet - everything the API-level pipeline
+    hands to compute_tax directly"""
+    q = tier == "quick"
+    slices = {"C05": [("Y", 4), ("P", 2)], "C07": [("M", 3), ("B", 3)], "C08": [("M", 3), ("B", 3)], "C03": [("T", 3), ("B", 3)], "C04": [("V", 3), ("B", 3)]}.get(prop, [("Y", 4), ("A", 3), ("B", 3)])
+    pools, stats = histories_for(slices, rnd)
+    names = [s for s, _ in slices]
+    if prop in ("C01", "C02", "C09"):
+        # histories in which the method has a real choice: two lots of different age and price, acquired before a disposal
+        def choice(h):
+            o = sorted(h, key=lambda y: y["t"])
+            ins = [x for x in o if x["cls"] == "in"]
+            return len(ins) >= 2 and ins[0]["price"] != ins[1]["price"] and ins[0]["t"] != ins[1]["t"] and any(x["cls"] == "out" and x["t"] >= ins[1]["t"] for x in o)
+        for s_ in names:
+            good = [h for h in pools[s_] if choice(h)]
+            if good:
+                pools[s_] = good
+    jobs = []
+    for i in range(36 if q else 400):
+        assets = {f"B{j + 1}": rnd.choice(pools[names[(i + j) % len(names)]]) for j in range(1 + i % 2)}
+        country = ["us", "generic", "us", "es", "jp", "ie"][i % 6] if prop == "C05" else ["us", "generic"][i % 2]
+        method, sched = None, None
+        if country in ("us", "generic"):
+            if i % 3 == 0:
+                y = min_year(assets)
+                sched = [[1970 if k == 0 else y + k, rnd.choice(METHODS)] for k in range(2 + i % 3)]
+            else:
+                method = METHODS[(i // 3) % 4]
+        shape = {"C09": ["to", "none"], "C10": ["from", "fromto", "to"], "C06": ["to", "none", "from"], "C07": ["to", "none"]}.get(prop, ["none", "none", "to"])[i % (2 if prop in ("C09", "C07") else 3)]
+        if country == "jp" and shape == "fromto":
+            shape = "from"
+        job = make_job(assets, country, rnd, shape=shape, lang="en" if country == "jp" else None, method=method, sched=sched)
+        job["observe"] = ["computed"]
+        if country == "generic":
+            job["ltcg"] = [365, 1, 366, 30][(i // 2) % 4]
+        job["tag"] = f"cli:{country}:{shape}:{'sched' if sched else (method or 'default')}"
+        jobs.append(job)
+    return jobs, stats
+
+
+def ledger_traces(res):
+    """what one end-to-end run computed, per asset, as a trace for spec/Trace_Ledger.tla: the unfiltered fractions are the reference
+    behaviour, the date-filtered ComputedData handed to the report generators is an observation of it"""
+    job, r = res["job"], res["res"]
+    if r["exit"] != 0 or not r.get("computed"):
+        return []
+    a = job["args"]
+    U = job["conc"]["U"]
+    from fractions import Fraction  # pylint: disable=import-outside-toplevel
+
+    sched = job.get("sched") or [[1970, a.get("method") or "fifo"]]
+    out = []
+    for name, cd in sorted(r["computed"].items()):
+        h = job["assets"][name]
+        if cd.get("fr_all") is None:
+            continue
+        c = {"Q": job["conc"]["Q"], "sched": sched, "country": job["country"], "ltcg": job.get("ltcg", 365), "band": int(Fraction(1, 10**10) / Fraction(U))}
+        lines = [{"a": "Take", "ev": f[0], "lot": f[1], "amt": f[2], "proc": f[3], "cost": f[4], "gain": f[5], "long": f[6], "ex": bool(cd.get("ex", True))} for f in cd["fr_all"]]
+        lines.append({"a": "Done"})
+        obs = {"a": "Obs", "k": len(h), "from": a["from"] if a.get("from") is not None else common.MIN_DAY, "to": a["to"] if a.get("to") is not None else common.MAX_DAY,
+               "neg": bool(a.get("neg")), "status": "ok", "acct": 0, "ex": bool(cd.get("ex", True))}
+        obs.update({k: cd[k] for k in ("fr", "lab", "yr", "bal", "ins", "outs", "intras", "tev", "ppu", "sold")})
+        lines.append(obs)
+        out.append({"c": c, "h": [dict(x, par=0) for x in h], "m": len(h), "lines": lines,
+                    "meta": {"conc": job["conc"], "runs": [{"cli": job.get("tag", ""), "asset": name, "args": a}], "msgs": [], "overflow": False, "neg": bool(a.get("neg")),
+                             "tag": job.get("tag", "cli"), "engine_expected": None, "cli_job": job}})
+    return out
+
+
 # ---- negative controls: a corrupted copy of an accepted document must be rejected by a clause of the property --------------------
 def mutate(tr, prop, rnd):
     t = copy.deepcopy(tr)
